@@ -1201,11 +1201,15 @@ def run(ctx: Ctx):
     ctx.cov["rule"] = (
         "bin: (dtype of 10, shape 1..4-D with lengths 1..12, axis subset in any order, factor per axis from "
         "{1,2,3,4,5,n,n+1,n-1,n//2} so that about half do not divide, reducer, call form int/tuple/None, in place or not, "
-        "dyadic origin/sampling, values in eighths); pad: output_shape (15% with an axis asking for less) / int / pair / "
-        "per-axis widths, then crop with the pad widths as (before,-after) and as (before,before+n); crop: random "
-        "(before, after) incl. negative and out-of-range; resample: out_shape or float factors (ties, <1 sample), axis "
-        "subsets, up/down/same, odd<->even, lengths 1..12; linearity with dyadic (complex) coefficients; band-limited "
-        "up/down round trips (Nyquist component projected out along even axes).  A case is distinct by its full input; "
+        "dyadic origin/sampling, values in eighths); every multi-axis bin is also compared with the sequential one-axis "
+        "calls; pad: output_shape (15% with an axis asking for less) / int / pair / "
+        "per-axis widths, np.pad mode default / constant_values / edge / reflect / symmetric / wrap / linear_ramp / mean / "
+        "empty, then crop with the pad widths as (before,-after), as (before,before+n) and naming only the padded axes; "
+        "crop: random (before, after) incl. 0 = to the end, negative and out-of-range; resample: out_shape or float factors "
+        "(ties, <1 sample), axis subsets, up/down/same, odd<->even, lengths 1..12, both float models (axis after axis; all "
+        "axes at once stage by stage, for several axes); linearity with dyadic (complex) coefficients; band-limited "
+        "up/down round trips (Nyquist component projected out along even axes).  In every kind: 15% of the cases name "
+        "their axes by negative index, 40% of the 2/3/4-D cases run on Dataset2d/3d/4d/4dstem.  A case is distinct by its full input; "
         "non-trivial when some factor > 1 and the result is non-empty (bin), some pad width > 0 (pad), the output "
         "shape differs from the input shape (resample, linearity, round trip)")
     ctx.assumptions += [
@@ -1221,8 +1225,9 @@ def run(ctx: Ctx):
         "binary64 instance of the same generic definitions, correspondence only)",
         "harness/props/C06.py (generators, independent block-sum / DFT oracles, Python->Coq printers), harness/common.py",
         "theorems about the Fourier pipeline are over an abstract commutative ring with root-of-unity families "
-        "(premises root_ok; satisfiable: Q(i), sizes 1, 2, 4) and are one-axis statements lifted line by line to N-D; "
-        "floating-point rounding is not modelled (stated tolerances)",
+        "(premises root_ok; satisfiable: Q(i), sizes 1, 2, 4, and Q(omega), sizes 1, 2, 3, 6); one-axis statements are lifted "
+        "line by line to N-D and the all-axes-at-once pipeline is proved equal to the axis-after-axis one "
+        "(coq/model/C06_ModelND.v pipeline_nd); floating-point rounding is not modelled (stated tolerances)",
         "harness/translate_arith.py: the per-axis index arithmetic of pad / crop / bin / fourier_resample is re-translated "
         "from the current source on every run and proved equal to the model definitions (coq/gen_proofs/Arith_Dataset_*.v)",
     ]
